@@ -314,6 +314,9 @@ func init() { Registry["C02"] = runC02 }
 
 func runC02(ctx Ctx) int {
 	world.PinClock()
+	if rc, ok := concDispatch("C02", ctx); ok {
+		return rc
+	}
 	run := ev.NewRun("C02")
 	run.Rule = "A: every assignment of 16 SSO dimensions (attacker-controlled ACS URL/index/ProtocolBinding/Destination/RelayState/extra parameters, 9 SP ACS metadata shapes incl. URLs with query strings and HTML/URL metacharacters, request validity at several steps) with <= k deviations (k=3 quick, 4 thorough); every persisted record is followed through the callback while pending and after completion. B: full product of stored URL alphabet x stored binding x state x RelayState at the callback. C: logout delivery over SLO list shapes x request variants. A state is (storage table, reply); targets compared modulo percent-encoding"
 	run.Assume = []string{"stored / registered URLs are absolute http(s) URLs; arbitrary strings as consumer URL are C03/C17's alphabet", "delivery targets are compared modulo percent-encoding (html/template normalises form actions)"}
@@ -427,6 +430,11 @@ func runC02(ctx Ctx) int {
 		cv := c02LogoutHistory(mode)
 		report(c02Verdict{Classes: []string{"logout-history:" + mode}, Clauses: cv, Detail: map[string]any{}}, "logout", []string{"history=logout ; registration " + mode + " ; logout"}, c02Replay{History: "logout:" + mode})
 	}
+	cb, cs := 1, 120
+	if run.Tier == "thorough" {
+		cb, cs = 2, 1500
+	}
+	runConc(run, "C02", cb, cs)
 	run.Sample(items[0].p)
 	run.Sample(items[len(items)/2].p)
 	run.Sample(inj[len(inj)/2])
